@@ -173,6 +173,19 @@ func textItems(path string) ([]Item, error) {
 			body = body[:i]
 		}
 	}
+	// the signature block is the last thing in a signed script: after its end line nothing may follow (a remnant of an
+	// earlier block left behind by a re-signing would be script text that the input did not have)
+	if i := bytes.LastIndex(data, []byte("SIG # End signature block")); i >= 0 {
+		rest := data[i:]
+		if j := bytes.IndexByte(rest, '\n'); j >= 0 {
+			rest = rest[j+1:]
+		} else {
+			rest = nil
+		}
+		if len(rest) != 0 {
+			return nil, fmt.Errorf("%d characters follow the end of the signature block: %q", len(rest), rest[:min(len(rest), 16)])
+		}
+	}
 	body = bytes.TrimRight(body, "\r\n")
 	return []Item{{"text", sum(body)}}, nil
 }
